@@ -235,6 +235,8 @@ def array(type_, **kwargs):
         raise ProphyError("only shifting bound array implemented")
     if shift < 0:
         raise ProphyError("negative shift of bound array not allowed")
+    if size < 0:
+        raise ProphyError("negative size of array not allowed")
     if type_._UNLIMITED:
         raise ProphyError("array with unlimited field disallowed")
     if type_._OPTIONAL:
